@@ -653,8 +653,20 @@ func (x *xl) srcStructFields(name string) ([]string, bool) {
 			}
 			var out []string
 			for _, f := range st.Fields.List {
-				if len(f.Names) == 0 {
-					return nil, false // embedded field
+				if len(f.Names) == 0 { // embedded field: its name is the type's name (io.Writer → Writer, *T → T)
+					t := f.Type
+					if st, ok := t.(*ast.StarExpr); ok {
+						t = st.X
+					}
+					switch tt := t.(type) {
+					case *ast.Ident:
+						out = append(out, tt.Name)
+					case *ast.SelectorExpr:
+						out = append(out, tt.Sel.Name)
+					default:
+						return nil, false
+					}
+					continue
 				}
 				for _, n := range f.Names {
 					out = append(out, n.Name)
@@ -2253,6 +2265,8 @@ func (x *xl) stmt1(s ast.Stmt) string {
 		return block(append(pre, r))
 	case *ast.SwitchStmt:
 		return x.switchStmt(t)
+	case *ast.TypeSwitchStmt:
+		return x.typeSwitchStmt(t)
 	case *ast.ForStmt:
 		x.push()
 		defer x.pop()
@@ -3061,6 +3075,81 @@ func (x *xl) switchStmt(t *ast.SwitchStmt) string {
 		r = "(.case " + cases[i].vals + "\n  " + indent(cases[i].body, 2) + "\n" + r + ")"
 	}
 	return block(append(pre, "(.switch "+tag.lean+"\n  "+indent(r, 2)+")"))
+}
+
+// typeSwitchStmt: `switch v := y.(type) { case T1: …; case T2: …; default: … }` with ONE type per case, each of which has a
+// comma-ok shim ".(T)" (an external intrinsic answering (value, ok)): the cases are tried in source order — the first
+// assertion that holds runs its body with v bound to the asserted value; `default` (wherever written) runs when none holds,
+// with v bound to y itself.  No `fallthrough` (Go forbids it here); `break` is outside the subset in this form.
+func (x *xl) typeSwitchStmt(t *ast.TypeSwitchStmt) string {
+	if t.Init != nil {
+		x.fail(t, "type switch with an init statement is outside the subset")
+	}
+	var bind string
+	var subject ast.Expr
+	switch a := t.Assign.(type) {
+	case *ast.AssignStmt:
+		if len(a.Lhs) != 1 || len(a.Rhs) != 1 || a.Tok != token.DEFINE {
+			x.fail(t, "type switch header")
+		}
+		bind = a.Lhs[0].(*ast.Ident).Name
+		subject = a.Rhs[0].(*ast.TypeAssertExpr).X
+	case *ast.ExprStmt:
+		subject = a.X.(*ast.TypeAssertExpr).X
+	default:
+		x.fail(t, "type switch header")
+	}
+	x.push()
+	defer x.pop()
+	subj := x.defaulted(subject, x.expr(subject))
+	var deflt *ast.CaseClause
+	type arm struct {
+		cc *ast.CaseClause
+		sh shim
+	}
+	var arms []arm
+	for _, c := range t.Body.List {
+		cc := c.(*ast.CaseClause)
+		if cc.List == nil {
+			deflt = cc
+			continue
+		}
+		if len(cc.List) != 1 {
+			x.fail(cc, "a type-switch case with several types is outside the subset")
+		}
+		key := ".(" + exprString(cc.List[0]) + ")"
+		sh, ok := x.fn.calls[key]
+		if !ok || sh.kind != "extstmt" || len(sh.res) != 2 || sh.res[1] != "bool" {
+			x.fail(cc, "type-switch case %s: no comma-ok shim %q in the whitelist entry of %s", exprString(cc.List[0]), key, x.fn.name)
+		}
+		arms = append(arms, arm{cc, sh})
+	}
+	body := func(cc *ast.CaseClause, val string, typ string) string {
+		x.push()
+		defer x.pop()
+		if bind != "" && bind != "_" {
+			v := x.declare(cc, bind, typ)
+			return block([]string{"(.assign [(.loc " + leanStr(v.lean) + ")] [" + val + "])", x.stmts(cc.Body)})
+		}
+		return x.stmts(cc.Body)
+	}
+	out := ".skip"
+	if deflt != nil {
+		out = body(deflt, subj.lean, subj.typ)
+	}
+	for i := len(arms) - 1; i >= 0; i-- {
+		a := arms[i]
+		tv := tvar{fmt.Sprintf("l%d", x.nloc), a.sh.res[0]}
+		x.nloc++
+		tok := tvar{fmt.Sprintf("l%d", x.nloc), "bool"}
+		x.nloc++
+		x.legend = append(x.legend, tv.lean+", "+tok.lean+" = (value, ok) of the type-switch case "+exprString(a.cc.List[0]))
+		th := body(a.cc, "(.loc "+leanStr(tv.lean)+")", a.sh.res[0])
+		out = block([]string{
+			"(.callX [(.loc " + leanStr(tv.lean) + "), (.loc " + leanStr(tok.lean) + ")] " + leanStr(a.sh.f) + " [" + subj.lean + "])",
+			"(.ite (.loc " + leanStr(tok.lean) + ")\n  " + indent(th, 2) + "\n  " + indent(out, 2) + ")"})
+	}
+	return out
 }
 
 func (x *xl) rangeStmt(t *ast.RangeStmt) string {
